@@ -59,5 +59,12 @@ Definition check_C19 (c : case) : Z :=
   | Op_tz_lookup, [bs], n :: rest =>
       let ts := firstn (Z.to_nat n) rest in
       verdict (obs_eqb (model_tz bs ts) (c_out c)) (negb (match c_out c with OPanic => true | _ => false end))
+  | Op_tz_local, [bs], [] =>
+      (* Offset::Local.resolve() observed with the file bs bind-mounted over /etc/localtime; the observation carries the clock reading *)
+      match c_out c with
+      | OOk [now_ts; off] [] =>
+          verdict (match resolve_local (Some bs) now_ts with TzOk u => u =? off | _ => false end) true
+      | OPanic => verdict (match from_tzif bs with TzPanic => true | _ => false end) false
+      | _ => V_MALFORMED end
   | _, _, _ => V_MALFORMED
   end.
